@@ -14,7 +14,7 @@ size_t g_oi;
 	__CPROVER_havoc_object(&g_bn); \
 	const size_t ncalls0 = 0; g_bn.ncalls = 0;	/* empty log */ \
 	IN(size_t, live0); __CPROVER_assume(live0 < 1000); g_bn.live = live0; \
-	IN(size_t, oi); g_oi = oi; g_bn.secret_rand = NULL; g_bn.nalloc = 0; g_bn.ctx_alive = 0; g_bn.fail_at = DH_FAIL_AT; g_bn.opcount = 0; \
+	IN(size_t, oi); g_oi = oi; g_bn.secret_rand = NULL; g_bn.nalloc = 0; g_bn.ctx_alive = 0; g_bn.fail_at = DH_FAIL_AT; g_bn.opcount = 0; g_bn.nb_valid = 0; \
 	size_t nfail0 = g_bn.nfail, rfail0 = g_bn.rand_fail, dirty0 = g_bn.dirty_free
 
 #define DH_LOG(k) (g_bn.log[ncalls0 + (k)])
